@@ -36,14 +36,14 @@ PROPS = {
     "C18": dict(COMMON,
         proof_targets=["Props/C18.vo"], theorems=[("C18", "C18_block_entry_lowering_correct"), ("C18", "C18_emitted_code_simulates_the_probe_semantics"), ("C18", "C18_tree_tie_follows_from_the_correspondence")],
         quick=dict(n=1200), thorough=dict(n=16000),
-        rule="as C16 with block-entry probes on random subsets of block/loop/if/else (+ some plain before/after); non-trivial = every case",
+        rule="as C16 with block-entry probes on random subsets of block/loop/if/else (+ some plain before/after, and in half of the cases semantic-after probes on the same kind of constructs); non-trivial = every case",
         level_text="Proof (simulation theorem, all programs) that the tree lowering of block-entry probes fires them on every entry (every loop iteration) and never otherwise; tied to the implementation by "
                    "flat(lower tree) = emitted body and by in-Coq differential execution on every sampled program.",
         level_note=SIM_NOTE, technique="Coq simulation proof + in-Coq differential execution", design_ref="5/C18"),
     "C19": dict(COMMON,
         proof_targets=["Props/C19.vo"], theorems=[("C19", "C19_block_exit_tree_lowering_correct"), ("C19", "C19_emitted_code_simulates_the_probe_semantics"), ("C19", "C19_tree_tie_follows_from_the_correspondence")],
         quick=dict(n=1200), thorough=dict(n=16000),
-        rule="as C16 with block-exit probes on random subsets of block/loop/if/else, arbitrarily nested blocks inside if-arms; non-trivial = every case",
+        rule="as C16 with block-exit probes on random subsets of block/loop/if/else, arbitrarily nested blocks inside if-arms (+ in half of the cases semantic-after probes on constructs, which share the pending-probe tables with exit probes); non-trivial = every case",
         level_text="Proof (simulation theorem, all programs) that the tree placement of block-exit probes fires them exactly when the body / then-arm falls through, and proof that the flat mirror emits the flattening of that tree "
                    "for every nesting (the pending exit code of an `if` is keyed by its block id; the former defect D15 is repaired by a fix: commit and its witness now satisfies the property: C19_former_D15_witness_holds); tied to the implementation by "
                    "flat(lower tree) = emitted body and differential execution on every sampled program.",
